@@ -920,9 +920,9 @@ def work_crash(item):
 # =====================================================================================================
 # (d) cache histories: explicit-state search in lock-step with a dictionary model of the cache
 HIST_SHAPE = (25, 4)
-HIST_LABELS = ('A', 'B', 'C', 'A2', 'P')
+HIST_LABELS = ('A', 'B', 'C', 'A2', 'P', 'SA', 'SB')
 HIST_OPS = [('asm', 'A', 'serial'), ('asm', 'A', 'pool'), ('asm', 'B', 'serial'), ('asm', 'C', 'serial'), ('asm', 'A2', 'serial'),
-            ('asm', 'P', 'serial'),
+            ('asm', 'P', 'serial'), ('asm', 'SA', 'serial'), ('asm', 'SB', 'serial'),
             ('trunc', 'empty'), ('trunc', 'header'), ('trunc', 'half'), ('trunc', 'short1'), ('del', ),
             ('ro', 'fs'), ('ro', 'dir'), ('rw', )]
 
@@ -939,11 +939,17 @@ def hist_requests():
             raise HarnessError('only {} elements with identical intervals on unit square and L-shape'.format(len(shared)))
         A = pick_lists(shared, N, M, 0)
         Bv = pick_lists(shared, N, M, 1)
+        SQ = pick_lists(shared, 10, 10, 0)
+        SQ2 = pick_lists(shared, 10, 10, 1)
+        if SQ[1] == SQ2[1]:
+            raise HarnessError('square list variants coincide')
         reqs = {'A': ('UnitSquare', A[0], A[1]), 'B': ('UnitSquare', A[0], Bv[1]), 'C': ('UnitSquare', Bv[0], A[1]),
                 'A2': ('LShape', A[0], A[1]),
                 # P: the SAME elements as A, test list in reversed order, trial list rotated by one (rows/columns follow list
                 # position, so a cache entry shared with A would return a permuted matrix)
-                'P': ('UnitSquare', list(reversed(A[0])), list(A[1][1:]) + list(A[1][:1]))}
+                'P': ('UnitSquare', list(reversed(A[0])), list(A[1][1:]) + list(A[1][:1])),
+                # SA / SB: SQUARE blocks (N == M) with the same test list and different trial lists
+                'SA': ('UnitSquare', SQ[0], SQ[1]), 'SB': ('UnitSquare', SQ[0], SQ2[1])}
         for k in (0, 1):
             if str(elems_of(nodesU, A[k])) != str(elems_of(nodesL, A[k])):
                 raise HarnessError('element reprs differ between the twin meshes')
